@@ -1304,6 +1304,23 @@ func run(sc scenario, res *caseResult) {
 	x.mu.Unlock()
 
 	// ---- phase 3: close the channel
+	if sc.Retry && x.running() > 0 {
+		// With a retry policy an RPC without deadline may sit in its back-off /
+		// server push-back timer holding clientStream.mu; ClientConn.Close would
+		// park the stream's context watcher on that sync.Mutex until the timer
+		// fires - which it never does once a goroutine of the bubble waits
+		// non-durably (stopped virtual clock; in real time it fires).  Cancel
+		// those RPCs first.
+		x.count("rpcs_cancelled_before_close_retry_policy", int64(x.running()))
+		x.mu.Lock()
+		for _, r := range x.rpcs {
+			if r.cancel != nil {
+				r.cancel()
+			}
+		}
+		x.mu.Unlock()
+		synctest.Wait()
+	}
 	fx.CC.Close()
 	synctest.Wait()
 	x.feed()
@@ -1454,6 +1471,17 @@ func classifyStall(gs []gblock) (key, msg string) {
 			}
 			if replay {
 				top := firstGrpcFunc(g)
+				// Only waits that neither a timer nor the RPC's context can end make
+				// this a deadlock in real time as well: the client write quota
+				// (woken by s.done only) and shouldRetry's wait for the attempt's
+				// stream to finish.  A holder in the retry back-off / push-back
+				// timer or in the picker is released by time - there only the
+				// stopped virtual clock makes the state permanent (not a violation).
+				real := strings.HasSuffix(top, "(*writeQuota).get") ||
+					(strings.HasSuffix(top, "(*csAttempt).shouldRetry") && strings.HasPrefix(g.state, "chan receive"))
+				if !real {
+					return "", ""
+				}
 				return "rpc-cannot-end-at-deadline-during-retry-replay:" + top,
 					"the goroutine that ends the RPC when its context is done is blocked on clientStream.mu in clientStream.finish, while the RPC goroutine holds that mutex in retryLocked/replayBufferLocked and is itself blocked in " + top + ": the RPC does not terminate at its deadline (only a later event from the server can end it)"
 			}
